@@ -141,6 +141,9 @@ func (c *octx) account() {
 			}
 		}
 	}
+	if c.boosted() {
+		o.Probes["failure_handled_first_schedule"]++
+	}
 	b, _ := json.Marshal(c.sc)
 	h := fnv.New64a()
 	h.Write(b)
